@@ -106,3 +106,18 @@ Extract/DispContainers.vos Extract/DispContainers.vok Extract/DispContainers.req
 Extract/Drv_containers.vo Extract/Drv_containers.glob Extract/Drv_containers.v.beautified Extract/Drv_containers.required_vo: Extract/Drv_containers.v Engine/Regex.vo Extract/Val.vo Extract/DispBase.vo Extract/DispContainers.vo
 Extract/Drv_containers.vio: Extract/Drv_containers.v Engine/Regex.vio Extract/Val.vio Extract/DispBase.vio Extract/DispContainers.vio
 Extract/Drv_containers.vos Extract/Drv_containers.vok Extract/Drv_containers.required_vos: Extract/Drv_containers.v Engine/Regex.vos Extract/Val.vos Extract/DispBase.vos Extract/DispContainers.vos
+Model/Config.vo Model/Config.glob Model/Config.v.beautified Model/Config.required_vo: Model/Config.v Engine/Regex.vo Gen/Patterns.vo PyRt/Str.vo Gen/Tables.vo Model/Trs.vo
+Model/Config.vio: Model/Config.v Engine/Regex.vio Gen/Patterns.vio PyRt/Str.vio Gen/Tables.vio Model/Trs.vio
+Model/Config.vos Model/Config.vok Model/Config.required_vos: Model/Config.v Engine/Regex.vos Gen/Patterns.vos PyRt/Str.vos Gen/Tables.vos Model/Trs.vos
+Extract/DispConfig.vo Extract/DispConfig.glob Extract/DispConfig.v.beautified Extract/DispConfig.required_vo: Extract/DispConfig.v Engine/Regex.vo PyRt/Str.vo Extract/Val.vo Extract/DispBase.vo Extract/DispTrs.vo Extract/DispContainers.vo Model/Trs.vo Model/Config.vo
+Extract/DispConfig.vio: Extract/DispConfig.v Engine/Regex.vio PyRt/Str.vio Extract/Val.vio Extract/DispBase.vio Extract/DispTrs.vio Extract/DispContainers.vio Model/Trs.vio Model/Config.vio
+Extract/DispConfig.vos Extract/DispConfig.vok Extract/DispConfig.required_vos: Extract/DispConfig.v Engine/Regex.vos PyRt/Str.vos Extract/Val.vos Extract/DispBase.vos Extract/DispTrs.vos Extract/DispContainers.vos Model/Trs.vos Model/Config.vos
+Extract/Drv_config.vo Extract/Drv_config.glob Extract/Drv_config.v.beautified Extract/Drv_config.required_vo: Extract/Drv_config.v Engine/Regex.vo Extract/Val.vo Extract/DispBase.vo Extract/DispConfig.vo
+Extract/Drv_config.vio: Extract/Drv_config.v Engine/Regex.vio Extract/Val.vio Extract/DispBase.vio Extract/DispConfig.vio
+Extract/Drv_config.vos Extract/Drv_config.vok Extract/Drv_config.required_vos: Extract/Drv_config.v Engine/Regex.vos Extract/Val.vos Extract/DispBase.vos Extract/DispConfig.vos
+Properties/C13.vo Properties/C13.glob Properties/C13.v.beautified Properties/C13.required_vo: Properties/C13.v Engine/Regex.vo Gen/Patterns.vo PyRt/Str.vo Gen/Tables.vo Model/Trs.vo Model/Config.vo Proofs/C13/Config.vo
+Properties/C13.vio: Properties/C13.v Engine/Regex.vio Gen/Patterns.vio PyRt/Str.vio Gen/Tables.vio Model/Trs.vio Model/Config.vio Proofs/C13/Config.vio
+Properties/C13.vos Properties/C13.vok Properties/C13.required_vos: Properties/C13.v Engine/Regex.vos Gen/Patterns.vos PyRt/Str.vos Gen/Tables.vos Model/Trs.vos Model/Config.vos Proofs/C13/Config.vos
+Proofs/C13/Config.vo Proofs/C13/Config.glob Proofs/C13/Config.v.beautified Proofs/C13/Config.required_vo: Proofs/C13/Config.v Engine/Regex.vo Gen/Patterns.vo PyRt/Str.vo Gen/Tables.vo Model/Trs.vo Model/Config.vo
+Proofs/C13/Config.vio: Proofs/C13/Config.v Engine/Regex.vio Gen/Patterns.vio PyRt/Str.vio Gen/Tables.vio Model/Trs.vio Model/Config.vio
+Proofs/C13/Config.vos Proofs/C13/Config.vok Proofs/C13/Config.required_vos: Proofs/C13/Config.v Engine/Regex.vos Gen/Patterns.vos PyRt/Str.vos Gen/Tables.vos Model/Trs.vos Model/Config.vos
